@@ -291,66 +291,140 @@ func exchangeCase(c *run.Ctx, script []int, withErrFix bool) bool {
 	if wantPanic {
 		return true
 	}
-	x, err := stub([]byte("m"), "t")
-	if withErrFix {
-		if err != errFix || x != nil {
-			c.Violate("exchange-stub-result", fmt.Sprintf("%s: returned (%v, %v)", desc, x, err), nil)
-			return false
-		}
-		return true
-	}
-	if err != nil || x == nil {
-		c.Violate("exchange-stub-result", fmt.Sprintf("%s: returned error %v", desc, err), nil)
-		return false
-	}
-	staysOpen := false
-	for i, k := range script {
-		if k == 2 || k == 3 || k == 5 {
-			if k == 3 {
-				staysOpen = true
+	// every invocation of one stub plays the whole script
+	for inv := 0; inv < 2; inv++ {
+		if !func() bool {
+			x, err := stub([]byte("m"), "t")
+			if withErrFix {
+				if err != errFix || x != nil {
+					c.Violate("exchange-stub-result", fmt.Sprintf("%s: returned (%v, %v)", desc, x, err), nil)
+					return false
+				}
+				return true
 			}
-			continue
-		}
-		select {
-		case got, ok := <-x:
-			if !ok || got != fix[i] {
-				c.Violate("exchange-stub-sequence", fmt.Sprintf("%s: entry %d delivered (%v, open=%v), want %v", desc, i, got, ok, fix[i]), nil)
+			if err != nil || x == nil {
+				c.Violate("exchange-stub-result", fmt.Sprintf("%s: returned error %v", desc, err), nil)
 				return false
 			}
-		case <-time.After(5 * time.Second):
-			if sim.Starved(200 * time.Millisecond) {
-				c.Inconclusive("machine overloaded while waiting for the exchange stub")
+			staysOpen := false
+			for i, k := range script {
+				if k == 2 || k == 3 || k == 5 {
+					if k == 3 {
+						staysOpen = true
+					}
+					continue
+				}
+				select {
+				case got, ok := <-x:
+					if !ok || got != fix[i] {
+						c.Violate("exchange-stub-sequence", fmt.Sprintf("%s: entry %d delivered (%v, open=%v), want %v", desc, i, got, ok, fix[i]), nil)
+						return false
+					}
+				case <-time.After(5 * time.Second):
+					if sim.Starved(200 * time.Millisecond) {
+						c.Inconclusive("machine overloaded while waiting for the exchange stub")
+						return false
+					}
+					c.Violate("exchange-stub-sequence", fmt.Sprintf("%s: entry %d never delivered", desc, i), nil)
+					return false
+				}
+				if k == 1 {
+					staysOpen = true
+				}
+			}
+			if staysOpen {
+				select {
+				case got, ok := <-x:
+					c.Violate("exchange-stub-end", fmt.Sprintf("%s: channel must stay open and silent, got (%v, open=%v)", desc, got, ok), nil)
+					return false
+				case <-time.After(20 * time.Millisecond):
+				}
+				return true
+			}
+			select {
+			case got, ok := <-x:
+				if ok {
+					c.Violate("exchange-stub-end", fmt.Sprintf("%s: surplus value %v", desc, got), nil)
+					return false
+				}
+			case <-time.After(5 * time.Second):
+				if sim.Starved(200 * time.Millisecond) {
+					c.Inconclusive("machine overloaded while waiting for the exchange stub")
+					return false
+				}
+				c.Violate("exchange-stub-end", fmt.Sprintf("%s: channel not closed after the script", desc), nil)
 				return false
 			}
-			c.Violate("exchange-stub-sequence", fmt.Sprintf("%s: entry %d never delivered", desc, i), nil)
+			return true
+		}() {
 			return false
 		}
-		if k == 1 {
-			staysOpen = true
+		if withErrFix {
+			break
 		}
 	}
-	if staysOpen {
-		select {
-		case got, ok := <-x:
-			c.Violate("exchange-stub-end", fmt.Sprintf("%s: channel must stay open and silent, got (%v, open=%v)", desc, got, ok), nil)
-			return false
-		case <-time.After(20 * time.Millisecond):
+	return true
+}
+
+// publishMockEmpty: a zero-length message matches a zero-length message,
+// whether either side holds nil or an empty slice.
+func publishMockEmpty(c *run.Ctx) bool {
+	for _, wantNil := range []bool{true, false} {
+		for _, callNil := range []bool{true, false} {
+			tb := &recTB{}
+			want := mqtttest.Transfer{Message: []byte{}, Topic: "retained/topic"}
+			if wantNil {
+				want.Message = nil
+			}
+			mock := mqtttest.NewPublishMock(tb, want)
+			msg := []byte{}
+			if callNil {
+				msg = nil
+			}
+			var err error
+			if p, _ := guard(func() { err = mock(nil, msg, "retained/topic") }); p != nil {
+				c.Violate("double-panics", fmt.Sprintf("NewPublishMock with an empty message panicked: %v", p), nil)
+				return false
+			}
+			tb.runCleanups()
+			if tb.count() != 0 || err != nil {
+				c.Violate("mock-verdict-wrong", fmt.Sprintf("NewPublishMock: expectation with a zero-length message (nil=%v) and a matching call with a zero-length message (nil=%v): failures recorded %d, error %v", wantNil, callNil, tb.count(), err), nil)
+				return false
+			}
 		}
-		return true
 	}
-	select {
-	case got, ok := <-x:
-		if ok {
-			c.Violate("exchange-stub-end", fmt.Sprintf("%s: surplus value %v", desc, got), nil)
-			return false
+	return true
+}
+
+// subscribeMockSpaces: filters are compared one by one, not as joined text.
+func subscribeMockSpaces(c *run.Ctx) bool {
+	for _, unsub := range []bool{false, true} {
+		for _, tc := range []struct {
+			want, call []string
+			deviates   bool
+		}{
+			{[]string{"alerts", "news"}, []string{"alerts news"}, true},
+			{[]string{"a b", "c"}, []string{"a", "b c"}, true},
+			{[]string{"a b", "c"}, []string{"c", "a b"}, false},
+			{[]string{"x y"}, []string{"x y"}, false},
+		} {
+			tb := &recTB{}
+			f := mqtttest.Filter{Topics: tc.want}
+			var mock func(quit <-chan struct{}, topicFilters ...string) error
+			if unsub {
+				mock = mqtttest.NewUnsubscribeMock(tb, f)
+			} else {
+				mock = mqtttest.NewSubscribeMock(tb, f)
+			}
+			if p, _ := guard(func() { mock(nil, tc.call...) }); p != nil {
+				c.Violate("double-panics", fmt.Sprintf("subscribe mock panicked on filters with spaces: %v", p), nil)
+				return false
+			}
+			if failed := tb.count() != 0; failed != tc.deviates {
+				c.Violate("mock-verdict-wrong", fmt.Sprintf("subscribe mock (unsubscribe=%v) want %q call %q: failure recorded=%v, want %v", unsub, tc.want, tc.call, failed, tc.deviates), nil)
+				return false
+			}
 		}
-	case <-time.After(5 * time.Second):
-		if sim.Starved(200 * time.Millisecond) {
-			c.Inconclusive("machine overloaded while waiting for the exchange stub")
-			return false
-		}
-		c.Violate("exchange-stub-end", fmt.Sprintf("%s: channel not closed after the script", desc), nil)
-		return false
 	}
 	return true
 }
@@ -579,6 +653,9 @@ func init() {
 			}
 			c.Count("exchange_scripts", k)
 			if part == 0 {
+				if !publishMockEmpty(c) || !subscribeMockSpaces(c) {
+					return
+				}
 				if !readSlicesCases(c) {
 					return
 				}
